@@ -94,9 +94,48 @@ def ret_sources(f):
             elif w.is_inst and w.op == "select":
                 stack.append((w.ops[1], b))
                 stack.append((w.ops[2], b))
+            elif w.is_inst and w.op == "call" and w.callee and _passthrough(f, w) is not None:
+                # `return cleanup_and_fail(x, y, err);` with a static helper that hands one of its parameters back
+                stack.append((w.ops[_passthrough(f, w)], b))
             else:
                 out.append((v, b))
     return out
+
+
+_PT = {}
+
+
+def _passthrough(f, call):
+    """index of the parameter a same-unit helper returns unchanged on every path, else None"""
+    prog = f.unit.program
+    h = prog.fn(call.callee, f.unit)
+    if h is None or h.decl or h.unit is not f.unit or h is f:
+        return None
+    if h in _PT:
+        return _PT[h]
+    _PT[h] = None
+    h.build()
+    ks = set()
+    for r in h.rets():
+        if not r.ops:
+            return None
+        seen, st = set(), [r.ops[0]]
+        while st:
+            v = st.pop()
+            if id(v) in seen:
+                continue
+            seen.add(id(v))
+            while v.is_inst and v.op in ("trunc", "zext", "sext", "bitcast"):
+                v = v.ops[0]
+            if v.is_inst and v.op == "phi":
+                st.extend(v.ops)
+            elif v.is_arg:
+                ks.add(v.idx)
+            else:
+                return None
+    if len(ks) == 1 and next(iter(ks)) < len(call.ops):
+        _PT[h] = next(iter(ks))
+    return _PT[h]
 
 
 def consistent_reach(f, start, value, fact, targets):
